@@ -1,5 +1,6 @@
 import Operon.Lemmas.C14
 import Operon.Lemmas.C14Tr
+import Operon.Gen.CoordTranslated
 /-!
 # C14 — coordinated operations release every resource on every exit path
 
@@ -211,43 +212,236 @@ theorem c14_cell_no_leak_on_any_exit (s : Sys) (op : Nat) (prio : Int) (req : Li
 `controller.py` by `harness/vf/extract/py2lean_coord.py` (typed, fail-closed: a method that leaves the supported
 subset becomes `untranslatable "…"` and its theorem below stops checking).  Each theorem states that the translated
 method IS the hand-written model function the theorems above are about — full equality of the resulting lock /
-graph / system / context and of the returned value.  Hypotheses, where present, are the two facts a Python dict and a
+graph / system / context and of the returned value.  The proofs live here (not in Lemmas) on purpose: when one method
+leaves the subset or stops agreeing, only its own theorem fails to check and the report names it.  Hypotheses, where present, are the two facts a Python dict and a
 shared object give for free and an association list / a copied record do not: `edges` has one entry per waiter
 (`Nodup` keys; an invariant of every history, `Good.keys`), and the context passed in is the object listed in
 `active_operations` (`Synced`). -/
 
 theorem c14_translation_agrees_add_to_waiting (l : Lock) (o : Nat) (p : Int) :
-    Tr.add_to_waiting l o p = { l with waiting := addWaiting l.waiting o p } := tr_add_to_waiting l o p
+    Tr.add_to_waiting l o p = { l with waiting := addWaiting l.waiting o p } := by
+  simp [Tr.add_to_waiting, addWaiting, bne_decide]
 
-theorem c14_translation_agrees_try_acquire (l : Lock) (o : Nat) (p : Int) :
-    Tr.try_acquire l o p = l.tryAcquire o p := tr_try_acquire l o p
+theorem c14_translation_agrees_try_acquire (l : Lock) (o : Nat) (p : Int) : Tr.try_acquire l o p = l.tryAcquire o p := by
+  obtain ⟨ow, pr, h, pre, w⟩ := l
+  cases ow with
+  | none => simp [Tr.try_acquire, Lock.tryAcquire]
+  | some old =>
+    by_cases ho : old = o
+    · simp [Tr.try_acquire, Lock.tryAcquire, ho]
+    · by_cases hp : pre = true ∧ pr < p
+      · simp [Tr.try_acquire, Lock.tryAcquire, ho, hp, c14_translation_agrees_add_to_waiting]
+      · simp [Tr.try_acquire, Lock.tryAcquire, ho, hp, c14_translation_agrees_add_to_waiting]
 
-theorem c14_translation_agrees_release (l : Lock) (o : Nat) : Tr.release l o = l.release o := tr_release l o
+theorem c14_translation_agrees_release (l : Lock) (o : Nat) : Tr.release l o = l.release o := by
+  obtain ⟨ow, pr, h, pre, w⟩ := l
+  by_cases ho : ow = some o
+  · by_cases hh : h ≤ 1
+    · have : h - 1 = 0 := by omega
+      simp [Tr.release, Lock.release, ho, hh, this]
+    · have : ¬ h - 1 = 0 := by omega
+      simp [Tr.release, Lock.release, ho, hh, this]
+  · simp [Tr.release, Lock.release, ho]
 
-theorem c14_translation_agrees_pop_next_waiter (l : Lock) : Tr.pop_next_waiter l = l.popNext :=
-  tr_pop_next_waiter l
+theorem c14_translation_agrees_pop_next_waiter (l : Lock) : Tr.pop_next_waiter l = l.popNext := by
+  obtain ⟨ow, pr, h, pre, w⟩ := l
+  cases w <;> simp [Tr.pop_next_waiter, Lock.popNext, keyError]
 
-theorem c14_translation_agrees_add_dependency (E : Edges) (hkeys : (E.map (·.1)).Nodup) (w b r : Nat) :
-    Tr.add_dependency E w b r = addDep E w b r := tr_add_dependency E hkeys w b r
+theorem c14_translation_agrees_add_dependency (E : Edges) (hn : (E.map (·.1)).Nodup) (w b r : Nat) :
+    Tr.add_dependency E w b r = addDep E w b r := by
+  unfold Tr.add_dependency addDep
+  cases hh : dictHas E w with
+  | false =>
+    have hno := dictHas_false hh
+    have hany : E.any (fun e => e.1 = w) = false := noKey_any hno
+    have hs : Split (E ++ [(w, [])]) w E [] [] := ⟨rfl, hno, fun e he => by cases he⟩
+    have hset : dictSet E w [] = E ++ [(w, [])] := by unfold dictSet; rw [hh]; rfl
+    simp only [hany, hset, hs.get, Bool.not_false, if_true, Bool.false_eq_true, if_false]
+    simp [(hs.set [(b, r)]).1]
+  | true =>
+    obtain ⟨P, v, R, hs⟩ := split_of_has hn hh
+    have hany : E.any (fun e => e.1 = w) = true := hh
+    simp only [hany, Bool.not_true, Bool.false_eq_true, if_false, if_true, hs.get]
+    by_cases hc : v.contains (b, r) = true
+    · simp only [hc, Bool.not_true, Bool.false_eq_true, if_false]
+      rw [hs.eq]
+      have hm : (b, r) ∈ v := by simpa using hc
+      simp [noKey_map hs.left, noKey_map hs.right, hm]
+    · simp only [hc, Bool.not_false, if_true]
+      rw [(hs.set _).1, hs.eq]
+      have hm : (b, r) ∉ v := by simpa using hc
+      simp [noKey_map hs.left, noKey_map hs.right, hm]
 
-theorem c14_translation_agrees_remove_dependency (E : Edges) (hkeys : (E.map (·.1)).Nodup) (w b : Nat) :
-    Tr.remove_dependency E w b = removeDep E w b := tr_remove_dependency E hkeys w b
+theorem c14_translation_agrees_remove_dependency (E : Edges) (hn : (E.map (·.1)).Nodup) (w b : Nat) :
+    Tr.remove_dependency E w b = removeDep E w b := by
+  have hstep : Tr.remove_dependency E w b = if dictHas E w then stepRm b E w else E := by
+    unfold Tr.remove_dependency stepRm; rfl
+  rw [hstep]
+  unfold removeDep
+  cases hh : dictHas E w with
+  | false =>
+    have hno := dictHas_false hh
+    simp only [Bool.false_eq_true, if_false]
+    rw [noKey_map hno (fun e => (e.1, e.2.filter (fun d => d.1 ≠ b)))]
+    symm
+    apply List.filter_eq_self.mpr
+    intro e he
+    simp [hno e he]
+  | true =>
+    obtain ⟨P, v, R, hs⟩ := split_of_has hn hh
+    simp only [if_true]
+    rw [stepRm_split hs, hs.eq]
+    simp only [List.map_append, List.map_cons, if_true, List.filter_append, List.filter_cons]
+    rw [noKey_map hs.left (fun e => (e.1, e.2.filter (fun d => d.1 ≠ b))),
+      noKey_map hs.right (fun e => (e.1, e.2.filter (fun d => d.1 ≠ b)))]
+    have hP : P.filter (fun e => !(decide (e.1 = w) && e.2.isEmpty)) = P :=
+      List.filter_eq_self.mpr (fun e he => by simp [hs.left e he])
+    have hR : R.filter (fun e => !(decide (e.1 = w) && e.2.isEmpty)) = R :=
+      List.filter_eq_self.mpr (fun e he => by simp [hs.right e he])
+    rw [hP, hR]
+    have hf : (fun d : Nat × Nat => decide (d.1 ≠ b)) = (fun e => e.1 != b) := by
+      funext d; simp [bne_decide]
+    rw [hf]
+    by_cases he : (v.filter (fun e => e.1 != b)).isEmpty = true
+    · rw [if_pos he]; simp [he]
+    · rw [if_neg he]; simp [he]
 
-theorem c14_translation_agrees_remove_all_for_agent (E : Edges) (hkeys : (E.map (·.1)).Nodup) (a : Nat) :
-    Tr.remove_all_for_agent E a = removeAllFor E a := tr_remove_all_for_agent E hkeys a
+theorem c14_translation_agrees_remove_all_for_agent (E : Edges) (hn : (E.map (·.1)).Nodup) (a : Nat) :
+    Tr.remove_all_for_agent E a = removeAllFor E a := by
+  have hsub : ((E.filter (fun e => e.1 ≠ a)).map (·.1)).Nodup :=
+    List.Nodup.sublist (List.Sublist.map _ List.filter_sublist) hn
+  have hfold := foldl_stepRm a (E.filter (fun e => e.1 ≠ a)) [] (by simpa using hsub)
+  have hstep : ∀ (E0 : Edges), (dictKeys E0).foldl (fun E v_waiter =>
+      let E : Edges := dictSet E v_waiter (((dictGet E v_waiter)).filter (fun e => (e.1 != a)))
+      if (!(!((dictGet E v_waiter)).isEmpty)) then
+        let E : Edges := dictDel E v_waiter
+        E
+      else
+        E) E0 = (dictKeys E0).foldl (stepRm a) E0 := fun _ => rfl
+  unfold Tr.remove_all_for_agent removeAllFor
+  simp only [hstep]
+  cases hh : dictHas E a with
+  | true =>
+    simp only [if_true]
+    have : dictDel E a = E.filter (fun e => e.1 ≠ a) := rfl
+    rw [this]
+    simp only [List.nil_append] at hfold
+    rw [hfold]
+    simp [bne_decide]
+  | false =>
+    simp only [Bool.false_eq_true, if_false]
+    have hno := noKey_filter (dictHas_false hh)
+    rw [hno] at hfold
+    simp only [List.nil_append] at hfold
+    rw [hfold, hno]
+    simp [bne_decide]
 
-theorem c14_translation_agrees_acquire_resource (s : Sys) (c : Ctx) (r : Nat) (hkeys : (s.edges.map (·.1)).Nodup) :
-    Tr.acquire_resource s c r = acquire s c r := tr_acquire_resource s c r hkeys
+theorem c14_translation_agrees_acquire_resource (s : Sys) (c : Ctx) (r : Nat) (hn : (s.edges.map (·.1)).Nodup) :
+    Tr.acquire_resource s c r = acquire s c r := by
+  unfold Tr.acquire_resource
+  cases hl : s.locks r with
+  | none => rw [acquire_unknown hl]
+  | some l =>
+    simp only [c14_translation_agrees_try_acquire]
+    by_cases hres : (l.tryAcquire c.id c.prio).2 = .blocked
+    · rw [acquire_blocked hl hres]
+      have h1 := (tryAcquire_blocked hres).1
+      simp only [hres, h1]
+      have hnn : (((s.setLock r { l with waiting := addWaiting l.waiting c.id c.prio }).edges).map (·.1)).Nodup := hn
+      simp [Sys.setLock, c14_translation_agrees_add_dependency _ hn]
+    · rw [acquire_ok hl hres]
+      have hed : ∀ (c' : Ctx), (((s.setLock r (l.tryAcquire c.id c.prio).1).setCtx c').edges) = s.edges := fun _ => rfl
+      generalize hq : l.tryAcquire c.id c.prio = q at hres
+      obtain ⟨l', res⟩ := q
+      cases res with
+      | blocked => exact absurd rfl hres
+      | acquired => simp [Sys.setLock, Sys.setCtx, c14_translation_agrees_remove_all_for_agent _ hn]
+      | reentrant => simp [Sys.setLock, Sys.setCtx, c14_translation_agrees_remove_all_for_agent _ hn]
+      | preempted => simp [Sys.setLock, Sys.setCtx, c14_translation_agrees_remove_all_for_agent _ hn]
 
-theorem c14_translation_agrees_release_resource (s : Sys) (c : Ctx) (r : Nat) (hkeys : (s.edges.map (·.1)).Nodup)
-    (hshared : Synced s c) : Tr.release_resource s c r = release s c r := tr_release_resource s c r hkeys hshared
+theorem c14_translation_agrees_release_resource (s : Sys) (c : Ctx) (r : Nat) (hn : (s.edges.map (·.1)).Nodup) (hsync : Synced s c) :
+    Tr.release_resource s c r = release s c r := by
+  unfold Tr.release_resource
+  by_cases hown : r ∈ c.acquired ∧ Owns s c.id r
+  · obtain ⟨hr, l, hl, ho⟩ := hown
+    have hc : c.acquired.contains r = true := by simpa using hr
+    simp only [hc, Bool.not_true, Bool.false_eq_true, if_false, hl, c14_translation_agrees_release]
+    by_cases hh : l.hold ≤ 1
+    · rw [release_last hr hl ho hh]
+      simp [Lock.release, ho, hh, Lock.freed, Sys.setLock, Sys.setCtx, c14_translation_agrees_remove_all_for_agent _ hn]
+    · rw [release_more hr hl ho hh]
+      have hs2 : Synced ({ s.setLock r { l with hold := l.hold - 1 } with edges := removeAllFor s.edges c.id }) c := hsync
+      rw [setCtx_same hs2]
+      simp [Lock.release, ho, hh, Sys.setLock, c14_translation_agrees_remove_all_for_agent _ hn]
+  · rw [release_not_owned hown]
+    by_cases hc : c.acquired.contains r = true
+    · simp only [hc, Bool.not_true, Bool.false_eq_true, if_false]
+      cases hl : s.locks r with
+      | none => rfl
+      | some l =>
+        have hno : l.owner ≠ some c.id := fun ho => hown ⟨by simpa using hc, l, hl, ho⟩
+        simp only [c14_translation_agrees_release]
+        have hrel : l.release c.id = (l, false) := by simp [Lock.release, hno]
+        simp only [hrel, Bool.false_eq_true, if_false]
+        rw [setLock_same hl]
+    · have hf : c.acquired.contains r = false := Bool.eq_false_iff.mpr hc
+      simp only [hf, Bool.not_false, if_true]
 
-theorem c14_translation_agrees_release_all_resources (s : Sys) (c : Ctx) (hkeys : (s.edges.map (·.1)).Nodup)
-    (hshared : Synced s c) : Tr.release_all_resources s c = releaseAll s c :=
-  tr_release_all_resources s c hkeys hshared
+/-- the `while` loop of `release_all_resources`, translated, is the model's `releaseLoop`, and what the loop needs
+    (distinct keys, the shared context object) holds again afterwards -/
+theorem c14_translation_loop_while_is_releaseLoop (r : Nat) : ∀ (f : Nat) (s : Sys) (c : Ctx), (s.edges.map (·.1)).Nodup → Synced s c →
+    whileFuel f (fun sc : Sys × Ctx =>
+        let q := Tr.release_resource sc.1 sc.2 r
+        ((q.1, q.2.1), q.2.2 && (q.2.1.acquired).contains r)) (s, c) = releaseLoop f s c r ∧
+    ((releaseLoop f s c r).1.edges.map (·.1)).Nodup ∧ Synced (releaseLoop f s c r).1 (releaseLoop f s c r).2
+  | 0, s, c, hn, hs => ⟨rfl, hn, hs⟩
+  | f + 1, s, c, hn, hs => by
+    have hn1 : ((release s c r).1.edges.map (·.1)).Nodup := (release_relStep s c r).1.keys hn
+    have hs1 := release_synced s c r hs
+    unfold whileFuel releaseLoop
+    simp only [c14_translation_agrees_release_resource s c r hn hs]
+    generalize hq : release s c r = q at hn1 hs1
+    obtain ⟨s', c', ok⟩ := q
+    cases ok with
+    | false => exact ⟨by simp, hn1, hs1⟩
+    | true =>
+      simp only [Bool.true_and]
+      by_cases hc : c'.acquired.contains r = true
+      · simp only [hc, if_true]
+        exact c14_translation_loop_while_is_releaseLoop r f s' c' hn1 hs1
+      · have hf : c'.acquired.contains r = false := Bool.eq_false_iff.mpr hc
+        simp only [hf, Bool.false_eq_true, if_false]
+        exact ⟨trivial, hn1, hs1⟩
 
-theorem c14_translation_agrees_forget_operation (s : Sys) (o : Nat) (hkeys : (s.edges.map (·.1)).Nodup) :
-    Tr.forget_operation s o = forgetWaiter s o := tr_forget_operation s o hkeys
+theorem c14_translation_loop_for_is_releaseKeys : ∀ (ks : List Nat) (s : Sys) (c : Ctx), (s.edges.map (·.1)).Nodup → Synced s c →
+    ks.foldl (fun (sc : Sys × Ctx) v_resource_id =>
+        let s : Sys := sc.1
+        let c : Ctx := sc.2
+        let sc : Sys × Ctx := whileFuel (holdOf s v_resource_id + 1) (fun sc =>
+            let r := Tr.release_resource sc.1 sc.2 v_resource_id
+            ((r.1, r.2.1), r.2.2 && (r.2.1.acquired).contains v_resource_id)) (s, c)
+        let s : Sys := sc.1
+        let c : Ctx := sc.2
+        (s, c)) (s, c) = releaseKeys ks s c
+  | [], _, _, _, _ => rfl
+  | k :: ks, s, c, hn, hs => by
+    obtain ⟨h1, h2, h3⟩ := c14_translation_loop_while_is_releaseLoop k (holdOf s k + 1) s c hn hs
+    simp only [List.foldl_cons, releaseKeys, releaseFully]
+    rw [h1]
+    exact c14_translation_loop_for_is_releaseKeys ks _ _ h2 h3
+
+theorem c14_translation_agrees_release_all_resources (s : Sys) (c : Ctx) (hn : (s.edges.map (·.1)).Nodup) (hsync : Synced s c) :
+    Tr.release_all_resources s c = releaseAll s c := by
+  unfold Tr.release_all_resources releaseAll
+  simp only
+  rw [c14_translation_loop_for_is_releaseKeys c.acquired s c hn hsync]
+
+theorem c14_translation_agrees_forget_operation (s : Sys) (o : Nat) (hn : (s.edges.map (·.1)).Nodup) :
+    Tr.forget_operation s o = forgetWaiter s o := by
+  unfold Tr.forget_operation forgetWaiter
+  simp [Sys.mapLocks, c14_translation_agrees_remove_all_for_agent _ hn, bne_decide]
+
+
 
 /-! ### Non-vacuity: concrete systems meeting the hypotheses -/
 
